@@ -155,7 +155,11 @@ def is_balanced_html(text: str) -> bool:
 
 def wrap_html_tags(text: str, before: str, after: str):
     """Wrap any html tags in text with before and after strings."""
-    return re.sub(r"(<[^>]+>)", rf"{before}\1{after}", text)
+    # (a replacement function: in a replacement template, backslashes in
+    # before/after would be read as escapes and group references)
+    return re.sub(
+        r"(<[^>]+>)", lambda match: f"{before}{match[1]}{after}", text
+    )
 
 
 def hyperscan_match(regexes, text):
